@@ -44,6 +44,9 @@ def mk_pred(pred):
     if pred['type'] == 'halfspace':
         n, b = pred['n'], pred['b'][0] / pred['b'][1]
         return lambda *x: sum(ni * xi for ni, xi in zip(n, x)) < b
+    if pred['type'] == 'box':
+        lo, hi = pred['lo'], pred['hi']
+        return lambda *x: all(l <= xi < h for l, xi, h in zip(lo, x, hi))
     c, r2 = pred['c'], pred['r2'][0] / pred['r2'][1]
     return lambda *x: sum((xi - ci) ** 2 for ci, xi in zip(c, x)) < r2
 
@@ -340,7 +343,14 @@ def gen_op(rng, hs, cfg, cap):
         return {'kind': 'refine', 'marks': rng.choice([[], [[0, []]], [[L - 1, []]]]), 'container': rng.choice(CONTAINERS), 'trunc': False}
     if r < 0.2:
         lv = rng.randrange(L + (1 if rng.random() < 0.15 else 0))
-        if rng.random() < 0.5:
+        if rng.random() < 0.3:
+            ax = rng.randrange(dim)
+            nmax = max(int(n) for n in hs.mesh(0).numspans)
+            a = rng.randint(0, 2 * nmax - 1) / 2.0
+            lo, hi = [-1.0] * dim, [nmax + 1.0] * dim
+            lo[ax], hi[ax] = a, a + rng.choice([0.5, 1.0, 1.5, 2.0])
+            pred = {'type': 'box', 'lo': lo, 'hi': hi}
+        elif rng.random() < 0.5:
             pred = {'type': 'halfspace', 'n': [rng.choice([-1, 0, 1, 1, 2]) for _ in range(dim)], 'b': [rng.randint(-3, 12), 7]}
         else:
             pred = {'type': 'ball', 'c': [rng.choice([0, 0.5, 1, 1.5, 2, 3]) for _ in range(dim)], 'r2': [rng.randint(1, 30), 7]}
